@@ -121,6 +121,43 @@ def match_file(repo, rel, holes):
     return None, "trailing text differs"
 
 
+import glob as _glob
+
+SCANS = [
+    # process-wide mutable items reachable from a parse or from code generation
+    ("shared_state",
+     ["runtime/src/*.rs", "codegen/src/*.rs", "codegen/src/grammar/*.rs", "macro/src/*.rs"],
+     r"\bstatic\s+(mut\s+)?[A-Za-z_]+\s*:|thread_local!|lazy_static|OnceCell|OnceLock|Atomic[A-Z]|Mutex|RwLock|RefCell|\bCell<|UnsafeCell",
+     []),
+    # order-dependent containers, clocks, environment, randomness
+    ("ambient",
+     ["runtime/src/*.rs", "codegen/src/*.rs", "codegen/src/grammar/mod.rs", "cli/src/*.rs", "macro/src/*.rs"],
+     r"HashMap|HashSet|SystemTime|Instant::|std::env|env::var|rand::|thread_rng|getrandom|std::process::id|RandomState",
+     [("codegen/src/sequence.rs", "use std::collections::HashSet;"),
+      ("codegen/src/sequence.rs", "let mut fields_seen = HashSet::<&str>::new();"),
+      ("runtime/src/lib.rs", "use std::collections::HashMap;"),
+      ("runtime/src/lib.rs", "pub type CacheEntries<'a, T> = HashMap<usize, ParseResult<'a, T>, BuildNoHashHasher<usize>>;")]),
+]
+
+
+def run_scans(repo):
+    out = {}
+    for (name, pats, rx, expected) in SCANS:
+        found = []
+        for pat in pats:
+            for path in sorted(_glob.glob(os.path.join(repo, pat))):
+                rel = os.path.relpath(path, repo)
+                try:
+                    text = strip_comments(open(path, encoding="utf-8").read())
+                except OSError:
+                    continue
+                for line in text.split("\n"):
+                    if re.search(rx, line):
+                        found.append((rel, re.sub(r"\s+", " ", line).strip()))
+        out[name] = (sorted(set(found)) == sorted(set(expected)), found)
+    return out
+
+
 def render(repo):
     spec = load_holes()
     files = spec["files"]          # rel -> list of hole names
@@ -159,6 +196,14 @@ def render(repo):
             out.append("Definition file_%s : bool := true." % fid)
         else:
             out.append("Definition file_%s : unrecognised := Unrecognised." % fid)
+    out.append("")
+    for name, (ok, found) in sorted(run_scans(repo).items()):
+        if ok:
+            out.append("Definition scan_%s : bool := true." % name)
+        else:
+            out.append("(* scan %s found: %s *)" % (name, repr(found).replace("*)", "* )").replace("(*", "( *")))
+            out.append("Definition scan_%s : unrecognised := Unrecognised." % name)
+            broken.append(("scan_" + name, "unexpected occurrences: %r" % (found,)))
     out.append("")
     for h in sorted(values):
         t = holes[h]["type"]
